@@ -42,7 +42,7 @@ from .client import Authenticated
 from .constants import MAX_INPUT_SIZE, SPECIAL_USE_ATTRS
 from .db import Database
 from .exceptions import MailboxInconsistency
-from .mbox import Mailbox, NoSuchMailbox
+from .mbox import Mailbox, NoSuchMailbox, canonical_mbox_name
 from .mh import MH
 from .parse import BadCommand, IMAPClientCommand
 from .trace import toggle_trace, trace
@@ -968,13 +968,12 @@ class IMAPUserServer:
         # specify `/` as the prefix character in the name space, but do not use
         # it internally.
         #
-        name = name[1:] if name and name[0] == "/" else name
-
         # The INBOX is case-insensitive but it is stored in our file system in
         # a case sensitive lower case fashion..
         #
-        if name.lower() == "inbox":
-            name = "inbox"
+        # A name that reaches outside of our mail directory is refused.
+        #
+        name = canonical_mbox_name(name)
 
         # if not self.folder_exists(name):
         if not name.strip() or not self.folder_exists(name):
